@@ -31,7 +31,7 @@ def main() -> int:
     # legitimately trip another property's check; only the behaviour-preserving refactorings are run against everything)
     for d in sorted((ROOT / "seeded").glob("*/meta.json")):
         meta = json.loads(d.read_text())
-        if meta.get("expect") == "clean":
+        if meta.get("expect") == "clean" and d.parent.name.startswith("b") and not meta.get("stale_since"):
             items.append({"id": d.parent.name, "patch": str(d.parent / "patch.diff")})
     bad = 0
     for m in items:
